@@ -17,6 +17,9 @@ mod verif_c14 {
     /// stand-in for the 18 image-level curve loops (image_*_eotf/oetf): the Ok/Err contract is decided by the dispatch in
     /// to_linear/to_gamma, not by what the loops compute
     fn stub_image(v: Vec<[f32; 3]>) -> Vec<[f32; 3]> { v }
+    /// stand-ins for the data paths of the multi-stage harnesses (only success/failure, errors, config and dimensions are observed there)
+    fn stub_decode_planes<T: Pixel>(input: &Yuv<T>) -> Vec<[f32; 3]> { vec![[0.5, 0.0, 0.0]; input.width() * input.height()] }
+    fn stub_vec_identity(v: Vec<[f32; 3]>) -> Vec<[f32; 3]> { v }
     /// unpadded stand-in for Plane::new (allocation of 64-byte aligned rows dominates otherwise; layout is C11's subject)
     fn stub_plane_new<T: Pixel>(width: usize, height: usize, xdec: usize, ydec: usize, _xpad: usize, _ypad: usize) -> Plane<T> {
         let buf = vec![T::cast_from(128u8); width * height];
@@ -228,14 +231,18 @@ def plan(tier, seed):
         mcs_all = [0, 1, 3, 4, 5, 6, 7, 8, 9, 10, 11, 12, 13, 14]
         if thorough:
             mcs = mcs_all
-        elif cp in (0, 1, 3):
-            mcs = [1, 0, 3]      # quick: Reserved0, BT.709, Reserved primaries x {standard, derived-from-primaries, Reserved} matrices
+        elif cp in (0, 3):
+            # quick: the unsupported primaries (Reserved0, Reserved) x {standard, derived-from-primaries, Reserved} matrices.  Instances in which the
+            # whole chain SUCCEEDS keep ~5000 CBMC properties alive at once and exhaust 32 GB in the SAT solver: thorough tier only, memory-capped;
+            # the success side of the contract is decided per stage by k_c14_yuv_rgb_* and k_c14_gamma_linear_*
+            mcs = [1, 0, 3]
         # (instances whose primaries need a real gamut conversion take ~25 min and ~25 GB each: thorough tier only)
         else:
             mcs = []
         stubs = ("    #[kani::proof]\n    #[kani::unwind(6)]\n    #[kani::stub(yuvxyb_math::pow_exp::powf, stub_powf)]\n    #[kani::stub(yuvxyb_math::pow_exp::expf, stub_expf)]\n"
                  "    #[kani::stub(yuvxyb_math::cbrtf::cbrtf, stub_cbrtf)]\n    #[kani::stub(v_frame::plane::Plane::new, stub_plane_new)]\n"
                  "    #[kani::stub(yuvxyb_math::matrix::Matrix::mul_arr, yuvxyb_math::matrix::verif_stub_mul_arr)]\n    #[kani::stub(yuvxyb_math::matrix::Matrix::invert, yuvxyb_math::matrix::verif_stub_invert)]\n"
+                 "    #[kani::stub(crate::yuv_rgb::ycbcr_to_ypbpr, stub_decode_planes)]\n    #[kani::stub(crate::rgb_xyb::linear_rgb_to_xyb, stub_vec_identity)]\n    #[kani::stub(crate::rgb_xyb::xyb_to_linear_rgb, stub_vec_identity)]\n"
                  "    #[kani::stub(crate::yuv_rgb::transfer::image_log100_inverse_oetf, stub_image)]\n"
                  "    #[kani::stub(crate::yuv_rgb::transfer::image_log316_inverse_oetf, stub_image)]\n"
                  "    #[kani::stub(crate::yuv_rgb::transfer::image_rec_1886_eotf, stub_image)]\n"
@@ -260,8 +267,8 @@ def plan(tier, seed):
                 nm = "k_c14_yuv_%s_p%d_m%d" % (fam, cp, m)
                 multi += stubs + "    fn %s() { multi_p%d::<%s>(%d, %d) }\n" % (nm, cp, flag, cp, m)
                 hs.append(dict(name=nm, family="c14", obligation="YUV<->%s: symmetry, error names an offender, standard combinations succeed, config/dimensions as requested [primaries index %d, matrix index %d]" % ("linear RGB" if fam == "linear" else "XYB", cp, m),
-                               timeout=1800, mem_gb=16 if cp in (0, 1, 3) else 34, covers=["reached"], replay=replay, what="multi", mi=m,
-                               sym="transfer symbolic over all 18 values; primaries index %d, matrix index %d (quick: Reserved0/BT.709/Reserved primaries x {standard, derived, Reserved} matrices; thorough: all 13 x 14)" % (cp, m)))
+                               timeout=1800, mem_gb=16, covers=["reached"], replay=replay, what="multi", mi=m,
+                               sym="transfer symbolic over all 18 values; primaries index %d, matrix index %d (quick: Reserved0/Reserved primaries x {standard, derived, Reserved} matrices; thorough: all 13 x 14 (success-path instances may end inconclusive: solver memory))" % (cp, m)))
         txt += BODY.replace("@P@", str(cp)).replace("@P2@", str(cp2)).replace("@MULTI@", multi)
         for (fam, what, obl, covers) in fams:
             if fam == "k_c14_gamma_linear_both_bad" and cp in sup:
